@@ -115,8 +115,11 @@ func expectedLine(rd rendered, toks []Tok, tok int, where string) int {
 		return -1
 	}
 	l := rd.tokLine[tok-1]
-	if where == "body" {
+	if where == "body" || where == "body1" {
 		l++
+		if where == "body1" {
+			l++
+		}
 		if toks[tok-1].E {
 			l++
 		}
@@ -141,6 +144,9 @@ func checkBuild(res *Result, sigPrefix string, toks []Tok, rd rendered, exp *bui
 			res.mismatch("c05:"+short(bad[0]), "cross-reference invariant broken: "+strings.Join(bad, "; "), replay)
 			return false
 		}
+		if len(exp.Skel) == 0 {
+			return true // only the verdict is predicted for this case
+		}
 		sk, err := projectCatalog(o.JSON)
 		if err != nil {
 			res.mismatch(sigPrefix+":catalog-shape", "catalog JSON does not have the JDoc Exchange shape: "+err.Error(), replay)
@@ -148,11 +154,27 @@ func checkBuild(res *Result, sigPrefix string, toks []Tok, rd rendered, exp *bui
 		}
 		var want any = map[string]any{}
 		if len(exp.Skel) > 0 {
-			want = normalizeSpecSkeleton(exp.Skel[0])
+			// work on a copy: the expectation is reused for other renderings of the same document
+			var cp any
+			_ = json.Unmarshal([]byte(canonJSON(exp.Skel[0])), &cp)
+			want = normalizeSpecSkeleton(cp)
 		}
 		var got any
 		_ = json.Unmarshal([]byte(canonJSON(sk)), &got)
-		if d := firstDiff("catalog", want, got); d != "" {
+		for _, k := range skelIgnoreKeys {
+			stripKey(want, k)
+			stripKey(got, k)
+		}
+		d := firstDiff("catalog", want, got)
+		if d != "" && strings.HasSuffix(diffKey(d), ".uenums") && strings.Contains(d, "missing in code") {
+			// recorded deviation (known_findings.json): usedUserEnums is never populated by the code;
+			// report it under its own signature and compare everything else
+			res.mismatch(sigPrefix+":usedUserEnums-never-populated", "a schema that uses an ENUM rule does not list it in usedUserEnums: "+d, replay)
+			stripKey(want, "uenums")
+			stripKey(got, "uenums")
+			d = firstDiff("catalog", want, got)
+		}
+		if d != "" {
 			res.mismatch(sigPrefix+":catalog-"+diffKey(d), "catalog differs from the model: "+d, replay)
 			return false
 		}
@@ -258,4 +280,21 @@ func docReplay(args []string) *Result {
 	}
 	res.Nontrivial = len(distinct)
 	return res
+}
+
+// skelIgnoreKeys: skeleton fields a check does not own (set by the sub-command).
+var skelIgnoreKeys []string
+
+func stripKey(v any, key string) {
+	switch x := v.(type) {
+	case map[string]any:
+		delete(x, key)
+		for _, e := range x {
+			stripKey(e, key)
+		}
+	case []any:
+		for _, e := range x {
+			stripKey(e, key)
+		}
+	}
 }
